@@ -436,8 +436,50 @@ _tu_cache = {}
 
 def load(name):
     if name not in _tu_cache:
-        _tu_cache[name] = TU(name, extract(name))
+        tu = TU(name, extract(name))
+        normalise(tu)
+        _tu_cache[name] = tu
     return _tu_cache[name]
+
+
+def normalise(tu):
+    """Helper-insensitive view of the unit (engine/inline.py): library functions the reference tree did not have
+    are looked through at their direct call sites, and dropped from the unit when no call site is left.  On the
+    reference tree there is no such function and the unit is untouched."""
+    from . import inline
+    known = inline.keep_names()
+    new = [f for f in tu.fns.values() if f.is_lib and f.has_body and f.qe not in known and
+           f.kind in ("function", "method") and "(anonymous class)" not in f.q and "(lambda" not in f.q]
+    tu.new_helpers = sorted(set(f.qe for f in new))
+    if not new:
+        return
+    views = {}
+    for f in list(tu.fns.values()):
+        if f.has_body and f.is_lib:
+            v = inline.view(tu, f)
+            if v is not f:
+                views[f.id] = v
+    for fid, v in views.items():
+        old = tu.fns[fid]
+        tu.fns[fid] = v
+        lst = tu.by_qe.get(old.qe, [])
+        tu.by_qe[old.qe] = [v if x is old else x for x in lst]
+    tu._callers = None
+    tu._overriders = None
+    # helpers without a remaining call site are no longer part of the program the rules look at
+    cal = tu.callers()
+    gone = []
+    for f in new:
+        cur = tu.fns.get(f.id)
+        if cur is None:
+            continue
+        if not [c for c in cal.get(f.id, ()) if c[0].id != f.id]:
+            gone.append(cur)
+    for f in gone:
+        del tu.fns[f.id]
+        tu.by_qe[f.qe] = [x for x in tu.by_qe.get(f.qe, []) if x.id != f.id]
+    tu._callers = None
+    tu.looked_through = sorted(set(f.qe for f in gone))
 
 
 def extract_many(names):
